@@ -353,14 +353,31 @@ def g_c01(r, tier, env, Ls):
     return cs
 
 def g_c02(r, tier, env, Ls):
-    return gen_jacobian(r, Ls, 400 if tier == "quick" else 6000)
+    cs = gen_jacobian(r, Ls, 400 if tier == "quick" else 6000)
+    for c in gen_jacobian(r, Ls, 150 if tier == "quick" else 2000):
+        c.line = "jacobianflat" + c.line[len("jacobian"):]
+        c.kind = "jacobianflat"; c.oracle = None; c.tags.append("flat")
+        cs.append(c)
+    return cs
+
+def gen_luflat(r, Ls, n):
+    cs = []
+    for _ in range(n):
+        L = r.pick(Ls); csc = r.below(2); nn = r.rng(1, 7); blocks = r.rng(1, 2 * max(L, 1) + 1)
+        es = G.gen_pattern(r, nn, density=r.unit() * 0.5)
+        c = lu_case(r, 0, L, csc, nn, blocks, es)
+        toks = c.line.split()
+        c.line = " ".join(["luflat"] + toks[2:])
+        c.kind = "luflat"; c.oracle = None; c.tags.append("flat")
+        cs.append(c)
+    return cs
 
 def g_c03(r, tier, env, Ls):
-    return gen_lu(r, Ls, 250 if tier == "quick" else 4000, 3 if tier == "quick" else 4)
+    return gen_lu(r, Ls, 250 if tier == "quick" else 4000, 3 if tier == "quick" else 4) + gen_luflat(r, Ls, 120 if tier == "quick" else 2000)
 
 def g_c04(r, tier, env, Ls):
     cs = gen_lu(r, Ls, 300 if tier == "quick" else 4000, 2 if tier == "quick" else 3)
-    return cs
+    return cs + gen_luflat(r, Ls, 120 if tier == "quick" else 2000)
 
 def g_solves(r, tier, env, Ls, n, **kw):
     cs = []
